@@ -37,7 +37,8 @@ ASSUMPTIONS = ["hexagonal tori have an even width (the property's quantifier); h
 RULE = ("(a) exhaustive small scope, run first on every check: every (centre, radius, moore, include_center) on every SingleGrid up to "
         "4x4 (thorough 6x6), radii {1,2,3,7}, torus on/off, and every (centre, radius, include_center) on every HexMultiGrid of that size "
         "(tori: even width), radii {1,2,3,5}; each grid is queried forward and then in a strided reverse order, so the second pass is "
-        "answered from the cache; (b) random scenarios: the four grid classes at sizes 1..7 with random placements, 8-30 queries from "
+        "answered from the cache; every simple graph on up to 4 (thorough 5) labelled nodes in two edge-insertion orders x every node x "
+        "include_center x radius 0..n for NetworkGrid; (b) random scenarios: the four grid classes at sizes 1..7 with random placements, 8-30 queries from "
         "{get_neighborhood, iter_neighborhood, get_neighbors, iter_neighbors, get_neighborhood_mask, get_cell_list_contents (list and bare "
         "tuple), iter_cell_list_contents} with repeated keys (30%), out-of-grid centres, radii up to beyond the grid size, moves between "
         "queries, radius 0, hex centres outside the grid (5%), cell lists with arbitrary integers (20% of the lists), get_neighborhood_mask on hex "
@@ -56,8 +57,8 @@ def generate(rng, tier, count):
 def builtin_corpus():
     # core gives this hook no tier argument: read it from the command line
     if L.tier_from_argv() == "thorough":
-        return L.exhaustive_c09(6, (1, 2, 3, 4, 7), (1, 2, 3, 5))
-    return L.exhaustive_c09(4, (1, 2, 3, 7), (1, 2, 3, 5))
+        return L.exhaustive_c09(6, (1, 2, 3, 4, 7), (1, 2, 3, 5)) + L.exhaustive_c09_net(5)
+    return L.exhaustive_c09(4, (1, 2, 3, 7), (1, 2, 3, 5)) + L.exhaustive_c09_net(4)
 
 
 run_impl = L.run_impl
@@ -78,6 +79,8 @@ def tags(sc, obs):
     if w[1] == "net":
         yield "kind:network"
     else:
+        if sc.meta.get("oq"):
+            yield "stream:outside-quantifier(odd-width hex torus, tie only)"
         yield "kind:" + w[2]
         yield "torus:" + w[5]
         W, H = int(w[3]), int(w[4])
